@@ -131,7 +131,7 @@ Qed.
 Lemma filter_all {A} (p : A -> bool) l : (forall x, In x l -> p x = true) -> filter p l = l.
 Proof. induction l; cbn; intros H; auto. rewrite H by auto. f_equal. auto. Qed.
 
-Theorem index_complete derr es : Permutation (index_rows derr es) (map (row_of derr) es).
+Theorem index_complete es : Permutation (index_rows es) (map row_of es).
 Proof.
   unfold index_rows.
   set (fs := sort_str (nodup_str (map e_file es))).
@@ -140,8 +140,23 @@ Proof.
   assert (Hin : forall e, In e es -> mem (e_file e) fs = true).
   { intros e He. apply mem_In. eapply Permutation_in; [symmetry; apply sort_str_perm|].
     apply nodup_str_In. apply in_map; auto. }
-  transitivity (map (row_of derr) (flat_map (fun f => group f es) fs)).
+  transitivity (map row_of (flat_map (fun f => group f es) fs)).
   - clear. induction fs as [|f fs IH]; cbn [flat_map]; auto.
     rewrite map_app. apply Permutation_app; auto. apply Permutation_map, sort_line_perm.
   - apply Permutation_map. rewrite groups_partition by auto. rewrite filter_all; auto.
 Qed.
+
+(* what an HTML reader gets back from the cells of a row *)
+Definition read_row (r : row) : row :=
+  match r with (f, ln, id, sv, m) => (html_unescape f, ln, html_unescape id, sv, html_unescape m) end.
+
+Theorem row_carries e :
+  read_row (row_of e) =
+  (e_file e, (if negb (str_eqb (e_file e) []) && negb (ends_star (e_file e)) then dec_of_Z (e_line e) else []),
+   e_id e, (if e_inconcl e then e_sev e ++ L ", inconcl." else e_sev e), e_msg e).
+Proof. unfold read_row, row_of. rewrite !unescape_escape. reflexivity. Qed.
+
+Lemma row_cells_safe e :
+  match row_of e with (f, _, id, _, m) =>
+    Forall (fun c => ~ special c) f /\ Forall (fun c => ~ special c) id /\ Forall (fun c => ~ special c) m end.
+Proof. unfold row_of. repeat split; apply escape_no_special. Qed.
